@@ -107,8 +107,71 @@ def harvest(repo=None):
     return acc
 
 
+BASELINE = os.path.join(os.path.dirname(os.path.abspath(__file__)),
+                        'magic_baseline.json')
+
+
+def _load_baseline():
+    """Constants of the tree as it was when the checks were last validated
+    (written by `python -m vmon.gen.magic --write-baseline`).  It is used for
+    ONE thing: constants of the tree under test that are not in it are
+    *novel* and the generators prefer them - on the validated tree itself
+    nothing is novel and nothing changes.  No oracle ever reads it."""
+    import json
+    try:
+        with open(BASELINE) as f:
+            b = json.load(f)
+        return {'ints': set(b['ints']), 'strs': set(b['strs']),
+                'bytes': set(bytes.fromhex(x) for x in b['bytes']),
+                'floats': set(b['floats']),
+                'tuples': set(tuple(t) for t in b['tuples'])}
+    except (OSError, ValueError, KeyError):
+        return None
+
+
+def write_baseline(repo=None):
+    import json
+    acc = harvest(repo)
+    with open(BASELINE, 'w') as f:
+        json.dump({'ints': sorted(acc['ints']), 'strs': sorted(acc['strs']),
+                   'bytes': sorted(b.hex() for b in acc['bytes']),
+                   'floats': sorted(acc['floats']),
+                   'tuples': sorted(list(t) for t in acc['tuples'])}, f,
+                  indent=0)
+
+
 class Pool:
     def __init__(self, acc):
+        base = _load_baseline()
+        self.novel = {k: sorted(acc[k] - base[k]) if base else []
+                      for k in ('ints', 'strs', 'bytes', 'floats', 'tuples')}
+        nints = set()
+        for c in self.novel['ints']:
+            nints |= {c, c - 1, c + 1, -c}
+        for t in self.novel['tuples']:
+            nints |= set(t)
+        for b in self.novel['bytes']:
+            nints |= set(b[:8])
+            nints.add(len(b))
+        for x in self.novel['strs']:
+            nints.add(len(x))
+            nints.add(len(x.encode('utf-8', 'surrogatepass')))
+        self.novel_ints = sorted(nints) if (self.novel['ints'] or
+                                            self.novel['tuples'] or
+                                            self.novel['bytes'] or
+                                            self.novel['strs']) else []
+        nstrs = set(self.novel['strs'])
+        for b in self.novel['bytes']:
+            try:
+                nstrs.add(b.decode('utf-8'))
+            except UnicodeDecodeError:
+                pass
+        self.novel_strs = sorted(nstrs)
+        self.novel_bytes = sorted(set(self.novel['bytes']) | {
+            x.encode('utf-8', 'surrogatepass') for x in self.novel['strs']})
+        self._init_rest(acc)
+
+    def _init_rest(self, acc):
         ints = set()
         for c in acc['ints']:
             ints |= {c, c - 1, c + 1, -c}
@@ -135,6 +198,10 @@ class Pool:
 
     # ---- draws ---------------------------------------------------------
     def rint(self, rnd, lo, hi):
+        if self.novel_ints and rnd.random() < 0.5:
+            c = rnd.choice(self.novel_ints)
+            if lo <= c <= hi:
+                return c
         c = rnd.choice(self.ints)
         return c if lo <= c <= hi else None
 
@@ -146,8 +213,13 @@ class Pool:
         printable text, trimmed to the limits."""
         if not self.strs:
             return None
-        s = rnd.choice(self.strs)
         k = rnd.random()
+        if self.novel_strs and rnd.random() < 0.5:
+            s = rnd.choice(self.novel_strs)
+            if rnd.random() < 0.6:
+                k = 0.0                      # as it is, no variation
+        else:
+            s = rnd.choice(self.strs)
         tail = ''.join(rnd.choice('abz09._-') for _ in range(
             rnd.randint(1, 6)))
         if k < 0.55:
@@ -167,12 +239,25 @@ class Pool:
         return out
 
     def rbytes(self, rnd):
+        if self.novel_bytes and rnd.random() < 0.5:
+            return rnd.choice(self.novel_bytes)
         return rnd.choice(self.bytes) if self.bytes else b''
 
     def summary(self):
         return {'ints': len(self.ints), 'strs': len(self.strs),
                 'bytes': len(self.bytes), 'floats': len(self.floats),
-                'tuples': len(self.tuples)}
+                'tuples': len(self.tuples),
+                'novel': {k: [repr(x)[:60] for x in v[:20]]
+                          for k, v in self.novel.items() if v}}
+
+
+def boost(p):
+    """Probability p of drawing from the dictionary, tripled (capped at 0.35)
+    when the tree under test holds constants the validated tree did not."""
+    mp = pool()
+    if mp.novel_ints or mp.novel_strs or mp.novel_bytes:
+        return min(0.35, 3 * p)
+    return p
 
 
 def pool():
@@ -180,3 +265,11 @@ def pool():
     if _POOL is None:
         _POOL = Pool(harvest())
     return _POOL
+
+
+if __name__ == '__main__':
+    import sys
+    if '--write-baseline' in sys.argv:
+        write_baseline()
+        print('baseline written:', BASELINE)
+    print(pool().summary())
